@@ -241,9 +241,13 @@ func (pr *ProfileReader) readTagTable(tagTable *TagTable) error {
 	}
 
 	tagDataOffset := tagTableOffset + 4 + (tagCount * 12)
-	tagData, err := binary.ReadBytes(pr.reader, endOfTagData-tagDataOffset)
+	tagDataLength := uint32(0)
+	if endOfTagData > tagDataOffset {
+		tagDataLength = endOfTagData - tagDataOffset
+	}
+	tagData, err := binary.ReadBytes(pr.reader, tagDataLength)
 	if err != nil {
-		return fmt.Errorf("expected %d bytes of tag data: %v", endOfTagData-tagDataOffset, err)
+		return fmt.Errorf("expected %d bytes of tag data: %v", tagDataLength, err)
 	}
 
 	for sig, entry := range tagIndex {
